@@ -869,6 +869,23 @@ class CallMixin:
                 fr.loop.pop()
             self._remember([r, args[1]])
             return V(("comp", "map", r.t, (args[1].t,), ()), [py("gen")] + [("elemty", t) for t in r.ty], dep | r.dep)
+        if name == "next" and args and args[0].t and args[0].t[0] == "comp" and args[0].t[1] == "gen" and len(args[0].t[3]) == 1:
+            # next(<generator expression>[, default]): the first element that passes the conditions, like the body of a
+            # search loop with an early return (one element looked at, as loops are unrolled once)
+            a = args[0]
+            _, _, elt_t, _iters, conds = a.t
+            loopid = (self.here(node), self.fresh(node))
+            found = self.decide(("iter", loopid, 0))
+            if found:
+                for c in conds:
+                    if not self.truth(V(c, [py("bool")], a.dep)):
+                        found = False
+                        break
+            if found:
+                return V(elt_t, [t[1] for t in a.ty if t[0] == "elemty"], dep)
+            if len(args) > 1:
+                return args[1].with_dep(dep)
+            self.raise_exc("StopIteration", node, explicit=False)
         if name in ("zip", "enumerate", "reversed", "sorted", "iter", "filter"):
             self._remember(args)
             return V(("call", name, tuple(a.t for a in args)), [py("gen")], dep)
